@@ -62,6 +62,7 @@ func (ctx *Ctx) cloop(node *node, tpl *Tpl, w io.Writer) {
 		}
 		c++
 		// Loop over child nodes with square brackets check in paths.
+		chQB := ctx.chQB
 		ctx.chQB = true
 		var err error
 		child := node.child
@@ -75,7 +76,7 @@ func (ctx *Ctx) cloop(node *node, tpl *Tpl, w io.Writer) {
 				break
 			}
 		}
-		ctx.chQB = false
+		ctx.chQB = chQB
 
 		// Modify counter var.
 		switch node.loopCntOp {
